@@ -270,7 +270,13 @@ class _R:
                 if dbg is not None:
                     self.features.add("fstring-debug")
                     self.raw("=" + dbg)
-                    comps.append(M.String(ws0 + form_text + ws1 + "=" + dbg))
+                    # the text the = syntax copies from the source is literal text like any other: newlines are normalised,
+                    # and it continues the literal chunk before the field (one component)
+                    dtext = (ws0 + form_text + ws1 + "=" + dbg).replace("\r\n", "\n").replace("\r", "\n")
+                    if comps and type(comps[-1]) is M.String:
+                        comps[-1] = M.String(str(comps[-1]) + dtext)
+                    else:
+                        comps.append(M.String(dtext))
                 conversion = conv
                 if conv:
                     self.raw("!" + conv + ws2)
